@@ -173,12 +173,40 @@ pub struct SizedPayload {
     pub seed: u64,
 }
 
+/// Counters: payloads whose frame checksum was steered to a special byte value / attempts.
+pub static CRC_GROUND: std::sync::atomic::AtomicU64 = std::sync::atomic::AtomicU64::new(0);
+
 impl SizedPayload {
     pub fn bytes(&self) -> Vec<u8> {
-        match self.len {
+        let mut b = match self.len {
             None => self.shape.bytes(),
             Some(n) => self.shape.bytes_with_len(n, self.seed),
+        };
+        // One payload in eight (of 6..=400 bytes) gets its first byte chosen such that a checksum byte of
+        // its frame is one of the values that mean something to the decoder (0x1b, 0x1a, 0x00, 0x01): by
+        // chance that is one frame in 256, too rare to meet a particular tail shape as well. The tail is
+        // untouched; the choice is a function of `seed`, so it shrinks and replays like everything else.
+        if self.seed % 8 == 0 && (6..=400).contains(&b.len()) {
+            let want = [0x1bu8, 0x1a, 0x00, 0x01][((self.seed >> 3) % 4) as usize];
+            let hi = (self.seed >> 5) % 2 == 1;
+            let orig = b[0];
+            let mut found = false;
+            for v in 0..=255u8 {
+                b[0] = orig.wrapping_add(v);
+                let f = crate::refmodel::transport::ref_frame(&b);
+                let c = if hi { f[f.len() - 1] } else { f[f.len() - 2] };
+                if c == want {
+                    found = true;
+                    break;
+                }
+            }
+            if found {
+                CRC_GROUND.fetch_add(1, std::sync::atomic::Ordering::Relaxed);
+            } else {
+                b[0] = orig;
+            }
         }
+        b
     }
 }
 
